@@ -112,6 +112,8 @@ where
         }
 
         let absolute_offset = self.region_start + start_offset;
+        #[cfg(feature = "verif")]
+        rawdb::verif::access(self._region_lock.id(), start_offset as usize, total_bytes, self._region_lock.len(), "CompressedIoSource::refill_buffer");
         if self.file_position != absolute_offset {
             self.file_position = absolute_offset;
             self.file.seek(SeekFrom::Start(absolute_offset)).unwrap();
